@@ -170,6 +170,15 @@ impl quote::ToTokens for ParamsGenerator<'_> {
             syn::token::Gt::default(),
         );
 
+        // In an `impl<..>` header lifetimes have to come before the application type parameter:
+        if self.impl_t.is_some() {
+            for param in self.params {
+                if let syn::GenericParam::Lifetime(_) = param {
+                    punctuator.push(param);
+                }
+            }
+        }
+
         if let Some(impl_t) = &self.impl_t {
             punctuator.push_fn(|stream| {
                 push_tokens!(
@@ -201,7 +210,23 @@ impl quote::ToTokens for ParamsGenerator<'_> {
         }
 
         for param in self.params {
-            punctuator.push(param);
+            match (param, self.impl_t) {
+                (_, None) => punctuator.push(param),
+                (syn::GenericParam::Lifetime(_), Some(_)) => {}
+                // .. and parameter defaults (`T = u32`) are not allowed there:
+                (syn::GenericParam::Type(type_param), Some(_)) => punctuator.push(syn::TypeParam {
+                    eq_token: None,
+                    default: None,
+                    ..type_param.clone()
+                }),
+                (syn::GenericParam::Const(const_param), Some(_)) => {
+                    punctuator.push(syn::ConstParam {
+                        eq_token: None,
+                        default: None,
+                        ..const_param.clone()
+                    })
+                }
+            }
         }
     }
 }
